@@ -53,6 +53,9 @@ M = [
  ("C16-rebind-ignored", "C16", "src/params.rs",
   "                *self.bound_types = types;",
   "                if self.bound_types.is_empty() {\n                    *self.bound_types = types;\n                }"),
+ ("C16-types-lost-when-shim-does-not-pull", "C16 C08", "src/params.rs",
+  "        while params.try_next()?.is_some() {}\n        stmt.bound_types = bound_types;\n        Ok(())",
+  "        while params.try_next()?.is_some() {}\n        Ok(())"),
  ("C17-no-long-data-clear", "C17", "src/lib.rs",
   "                    state.long_data.clear();",
   "                    if stmt == 6 { state.long_data.clear(); }"),
